@@ -2,6 +2,7 @@ import Driver.Util
 import Driver.C05
 import Driver.C06
 import Driver.C07
+import Driver.C09
 import Driver.C13
 open Lean Drv
 
@@ -11,6 +12,7 @@ def dispatch (j : Json) : Except String Json := do
   | "C05" => Drv.C05.handle j
   | "C06" => Drv.C06.handle j
   | "C07" => Drv.C07.handle j
+  | "C09" => Drv.C09.handle j
   | "C13" => Drv.C13.handle j
   | _ => throw s!"bad-property {p}"
 
